@@ -76,6 +76,12 @@ def configs(tier, seed):
         cfgs.append(dict(name=f"pair{k} refined copies", kind="copies", dim=0, **base))
     for k in range(3):
         cfgs.append(dict(name=f"rational {k}", kind="rational", k=k))
+    cfgs.append(dict(name="rational, vector-valued control points", kind="rational2d"))
+    # float data (numpy float arrays as control points): the symbolic run covers the real-number semantics, the float64 replays
+    # of every path run the library's float branches
+    for k, ((pa, va, ma), (pb, vb, mb)) in enumerate(pairs[:4]):
+        cfgs.append(dict(name=f"pair{k} refined copies, 2-D float points", kind="copies2d", dim=2, floats=True,
+                         pa=pa, va=[str(F(v)) for v in va], ma=ma, pb=pb, vb=[str(F(v)) for v in vb], mb=mb))
     cfgs.append(dict(name="different intervals / non-curves", kind="misc"))
     return cfgs
 
@@ -219,6 +225,53 @@ def body(env, cfg):
         env.holds("refined / elevated copies of a different rational function stay different", not bool(C4 == C2) and not bool(C2 == C5))
         kmode.unchanged(env, C1, s1, "== operand")
         kmode.unchanged(env, C2, s2, "== operand")
+        return
+
+    if kind == "rational2d":
+        kv = KV([F(0), F(1, 3), F(2)], [3, 1, 3])
+        P = make_points(env, "P", kv.n, 2)
+        W1, W2 = conc_weights(kv.n, 1), conc_weights(kv.n, 4)
+        A = Curve(list(kv.U), P, W1)
+        B = _copy.deepcopy(A)
+        env.holds("a rational curve with vector control points equals itself and its copy", bool(A == A) and bool(A == B) and bool(B == A)
+                  and not bool(A != B))
+        B.knot_insert([F(1, 2)])
+        env.holds("... and its refined copy, both orders", bool(A == B) and bool(B == A) and not bool(A != B))
+        C = Curve(list(kv.U), P, W2)
+        env.assume((P[0][1] - P[1][1] >= 1) | (P[1][1] - P[0][1] >= 1))
+        env.holds("other weights (a different function): not equal, both orders", not bool(A == C) and not bool(C == A) and bool(A != C))
+        return
+
+    if kind == "copies2d":
+        # numpy float arrays as control points; B is A refined, then moved in ONE coordinate by eps (of either sign)
+        conv = float if env.floats else F
+        va = [conv(F(v)) for v in cfg["va"]]
+        n = sum(cfg["ma"]) - cfg["pa"] - 1
+        U = [v for v, m in zip(va, cfg["ma"]) for _ in range(m)]
+        Px, Py = env.reals("X", n), env.reals("Y", n)
+        for x in list(Px) + list(Py):
+            env.assume((x <= 4) & (x >= -4))
+        pts = [np.array([x, y], dtype=(float if env.floats else object)) for x, y in zip(Px, Py)]
+        A = Curve(U, pts)
+        B = _copy.deepcopy(A)
+        mid = (2 * va[0] + va[-1]) / 3
+        if mid in va:
+            mid = (va[0] + va[-1]) / 2
+        B.knot_insert([mid])
+        env.holds("a refined copy compares equal, in both orders", bool(A == B) and bool(B == A) and not bool(A != B))
+        eps = env.real("eps", nice=(-1, 1))
+        band = F(1, 10 ** 6)
+        if not env.floats:  # (the float image of a boundary witness may fall a last bit outside: only the symbolic run assumes it)
+            env.assume((eps >= band) | (eps <= -band) | (eps == 0))   # clear of the 1e-9 threshold: float rounding is not the subject
+        env.assume((eps <= 1) & (eps >= -1))
+        bp = [np.array(q, dtype=(float if env.floats else object)) for q in B.ctrlpoints]
+        j = len(bp) // 2
+        bp[j] = bp[j] + np.array([0, eps], dtype=(float if env.floats else object))
+        Bp = Curve(tuple(B.knotvector), bp)
+        r1, r2 = Bp == A, A == Bp
+        env.holds("moved in one coordinate: symmetric answer", bool(r1) == bool(r2))
+        env.holds("moved in one coordinate by eps: equal exactly when eps == 0", bool(r1) == bool(eps == 0) and bool(r2) == bool(eps == 0))
+        env.holds("!= is the negation", bool(Bp != A) == (not bool(r1)))
         return
 
     va, vb = [F(v) for v in cfg["va"]], [F(v) for v in cfg["vb"]]
